@@ -7,6 +7,7 @@ class purge(ContractBase):
     params = {'node': NODE, 'target': ATOM}
     modifies = ['Node.todo', 'Node.doing', 'Node.do']
     recursive = True
+    assumes = [one_node_per_tag_among_children]
 
     def requires(c):
         return {}
@@ -34,4 +35,4 @@ class purge(ContractBase):
             out['nodes.' + nm] = Implies(Not(reach(node, n)), f(c.cur, n)[t] == f(c.old, n)[t])
             out['removes.' + nm] = Implies(f(c.cur, n)[t], f(c.old, n)[t])
         return out
-    loops = {0: Loop(inv=_inv, modifies=['Node.todo', 'Node.doing', 'Node.do'])}
+    loops = {'for child in ': Loop(inv=_inv, modifies=['Node.todo', 'Node.doing', 'Node.do'])}
